@@ -571,9 +571,14 @@ def oracle_timers(res, pair, req, out):
     b, a = out['before'], out['after']
     if req['rule'].endswith('manual-start') or req['rule'].endswith('manual-stop'):
         return
-    if b.get('state') in ('OPENCONFIRM', 'ESTABLISHED') and a.get('state') == b.get('state') and b.get('timers') != a.get('timers'):
-        res.fail('C03', '%s %s moved the session timers: %r -> %r' % (req['method'], req['rule'], b.get('timers'), a.get('timers')),
-                 dict(pair.case(), request=req, answer=out['resp']), key='rest-moves-timers')
+    if b.get('state') in ('OPENCONFIRM', 'ESTABLISHED') and a.get('state') == b.get('state'):
+        bt, at = b.get('timers') or {}, a.get('timers') or {}
+        # the hold deadline is "last arrival + H": nothing arrived; the next KEEPALIVE must not be put off (an earlier one
+        # would be harmless)
+        later_ka = bool(bt.get('keepalive')) and (not at.get('keepalive') or min(at['keepalive']) > min(bt['keepalive']))
+        if bt.get('hold') != at.get('hold') or later_ka:
+            res.fail('C03', '%s %s moved the session timers: %r -> %r' % (req['method'], req['rule'], bt, at),
+                     dict(pair.case(), request=req, answer=out['resp']), key='rest-moves-timers')
 
 
 def describe_change(out):
